@@ -176,3 +176,530 @@ class CounterModel(object):
     def finish(self, h):
         # the callback fires exactly once per executed iteration: cross-check with the monitor
         pass
+
+
+# =========================================================================== settings tracking
+
+class Epochs(object):
+    """which objective-defining settings were in force for which logged evaluations"""
+    def __init__(self):
+        self.epochs = []       # dicts: from_eval, box, con, pen, red
+        self.cur = {'from_eval': 0, 'box': None, 'con': None, 'pen': None, 'red': None,
+                    'tight': None, 'clip': None}
+        self.epochs.append(dict(self.cur))
+        self.changed_after_start = {'box': False, 'con': False, 'pen': False, 'red': False}
+    def note(self, h, op, res):
+        if op['op'] != 'set' or 'exc' in res: return False
+        w = op['what']; a = op.get('arg')
+        key = {'bounds': 'box', 'constraint': 'con', 'penalty': 'pen', 'reducer': 'red'}.get(w)
+        if key is None: return False
+        if key == 'box':
+            self.cur['box'] = (tuple(a['lo']), tuple(a['hi'])) if a else None
+            self.cur['tight'] = a.get('tight') if a else None
+            self.cur['clip'] = a.get('clip') if a else None
+        else:
+            self.cur[key] = a
+        self.cur['from_eval'] = len(h.run.evals)
+        if h.started: self.changed_after_start[key] = True
+        if self.epochs and self.epochs[-1]['from_eval'] == self.cur['from_eval']:
+            self.epochs[-1] = dict(self.cur)
+        else:
+            self.epochs.append(dict(self.cur))
+        return True
+    def at(self, eval_index):
+        e = self.epochs[0]
+        for ep in self.epochs:
+            if ep['from_eval'] <= eval_index: e = ep
+            else: break
+        return e
+    def single_epoch(self):
+        return not any(self.changed_after_start.values())
+
+
+def in_box(x, box):
+    if box is None: return True
+    lo, hi = box
+    for v, l, u in zip(x, lo, hi):
+        if not (l <= v <= u): return False
+    return True
+
+def reduce_energy(y, p, red):
+    """mirror mystic: reducer(cost(x) + penalty(x))"""
+    if isinstance(y, (list, tuple)):
+        ys = [yi + p for yi in y]
+        if red is None:
+            return tuple(ys)
+        from .engine import reducer_fn
+        return reducer_fn(red)(ys)
+    return y + p
+
+def shadow_objective(h, ep, x, nested):
+    """the objective the solver minimises at x, recomputed from the peers' pure twins.
+    nested: constraints are applied inside the objective (NM/Powell)"""
+    from . import env
+    x = tuple(float(v) for v in x)
+    box = ep['box']
+    if nested:
+        con = ep['con']
+        tight = ep['tight'] or (ep['clip'] is not None)
+        for _ in range(20):
+            x0 = x
+            if con: x = tuple(env.con_apply(con, list(x)))
+            if tight and box is not None:
+                x = tuple(min(max(v, l), u) for v, l, u in zip(x, box[0], box[1]))
+            if x == x0: break
+    p = env.pen_apply(ep['pen'], x) if ep['pen'] else 0.0
+    if not in_box(x, box):
+        return inf + p, x
+    y = env.eval_model(h.plan['cost'], x)
+    return reduce_energy(y, p, ep['red']), x
+
+
+# =========================================================================== C01
+
+class EvaluatedOptimum(object):
+    """C01: reported optimum is a genuinely evaluated point with its true energy"""
+    P = 'C01'
+    def __init__(self):
+        self.ep = Epochs()
+        self.first_best = None
+        self.redecorated = False   # Finalize()/stop followed by more steps: the objective was re-wrapped mid-run
+        self._stopped = False
+        self.index = {}        # x tuple -> list of eval indices
+        self.indexed = 0
+    def tags(self, h):
+        e = self.ep.cur
+        return {'constraint': (e['con'] or {}).get('family'), 'form': (e['con'] or {}).get('form'),
+                'bounds': e['box'] is not None, 'tight': e['tight'], 'clip': e['clip'],
+                'penalty': bool(e['pen']), 'reducer': e['red'], 'midrun_change': not self.ep.single_epoch(),
+                'box_changed_midrun': self.ep.changed_after_start['box'],
+                'con_changed_midrun': self.ep.changed_after_start['con'],
+                'redecorated_midrun': self.redecorated}
+    def after_step_call(self, h, msg, executed):
+        if self._stopped and executed: self.redecorated = True
+        self._stopped = bool(msg)
+    def after_solve_call(self, h, executed):
+        if self._stopped and executed: self.redecorated = True
+        self._stopped = True
+    def after_op(self, h, op, res):
+        self.ep.note(h, op, res)
+        if h.started and (op['op'] == 'finalize' or (op['op'] == 'set' and op['what'] in
+                          ('bounds', 'constraint', 'penalty', 'reducer', 'evalmon'))):
+            self.redecorated = True
+        if op['op'] in ('step', 'solve') and h.started:
+            self.check(h, h.snap(), 'after_' + op['op'], members=False)   # members: at iteration boundaries only
+    def on_step(self, h, s):
+        if self._stopped: self.redecorated = True     # stepping again after a stop re-wraps the objective
+        self.check(h, s, 'iteration_%d' % s['_step_no'])
+    def _reindex(self, h):
+        ev = h.run.evals
+        for i in range(self.indexed, len(ev)):
+            self.index.setdefault(ev[i].x, []).append(i)
+        self.indexed = len(ev)
+    def check(self, h, s, when, members=True):
+        self._reindex(h)
+        T = self.tags(h)
+        be = s['bestEnergy']; bs = s['bestSolution']
+        solver = h.plan['solver']
+        nested = True   # DE stores constrained trials, so applying the constraint again is the identity
+        # (a) best is an evaluated point, with its true energy
+        fin = finite(be) if not isinstance(be, tuple) else all(finite(v) for v in be)
+        if fin and not isinstance(be, tuple):
+            ks = self.index.get(tuple(bs))
+            if not ks:
+                h.violate(self.P, 'best_not_evaluated', detail='%s: bestSolution %r (energy %r) was never passed '
+                          'to the cost function' % (when, bs, be), **T)
+            else:
+                ok = False; got = []
+                for k_ in ks:
+                    e = h.run.evals[k_]; ep = self.ep.at(k_)
+                    from . import env
+                    p = env.pen_apply(ep['pen'], e.x) if ep['pen'] else 0.0
+                    want = reduce_energy(e.y, p, ep['red'])
+                    got.append(want)
+                    if feq(canon(want), be): ok = True; break
+                if not ok:
+                    h.violate(self.P, 'best_energy_mismatch', detail='%s: bestEnergy=%r but cost+penalty at bestSolution %r '
+                              'is %r' % (when, be, bs, got[:3]), **T)
+        # (b) member energies == objective at the member (only while the objective is unchanged)
+        if members and self.ep.single_epoch():
+            ep = self.ep.cur
+            for i, (x, e) in enumerate(zip(s['population'], s['popEnergy'])):
+                if solver == 'NM' and s['generations'] == 0 and i > 0:
+                    continue     # the simplex is only populated by the first iteration
+                want, xc = shadow_objective(h, ep, x, nested)
+                if not feq(canon(want), e):
+                    h.violate(self.P, 'member_energy_mismatch', detail='%s: member %d %r stores energy %r but the '
+                              'objective there is %r' % (when, i, x, e, want), **T)
+                    break
+            # (c) never worse than the initial guess
+            if self.first_best is None and h.step_snaps:
+                self.first_best = h.step_snaps[0]['bestEnergy']
+            fb = self.first_best
+            if isinstance(fb, float) and isinstance(be, float) and fb == fb and be == be and be > fb:
+                h.violate(self.P, 'best_worse_than_initial', detail='%s: bestEnergy=%r is worse than the energy of the '
+                          'initial guess %r' % (when, be, fb), **T)
+
+
+# =========================================================================== C02
+
+class BoxOracle(object):
+    """C02: once strict ranges are set the cost is never evaluated outside the box"""
+    P = 'C02'
+    def __init__(self):
+        self.ep = Epochs()
+        self.checked = 0
+        self.box_from_start = False
+        self.box_changed = False
+        self.nonidem_seen = False
+    def tags(self, h):
+        e = self.ep.cur
+        return {'constraint': (e['con'] or {}).get('family'), 'tight': e['tight'], 'clip': e['clip'],
+                'installed_midrun': self.ep.changed_after_start['box']}
+    def scan(self, h):
+        ev = h.run.evals
+        box = self.ep.cur['box']
+        if box is not None:
+            for i in range(self.checked, len(ev)):
+                if not in_box(ev[i].x, box):
+                    h.violate(self.P, 'cost_called_outside_box', detail='cost call #%d at %r is outside the strict '
+                              'ranges %r' % (ev[i].n, ev[i].x, box), **self.tags(h))
+                    break
+        self.checked = len(ev)
+    def on_step(self, h, s):
+        self.scan(h)
+        self.check_best(h, s, 'iteration_%d' % s['_step_no'])
+    def check_best(self, h, s, when):
+        box = self.ep.cur['box']
+        if box is None or not self.box_from_start or self.box_changed: return
+        if (self.ep.cur['con'] or {}).get('family') == 'push_out' or self.nonidem_seen:
+            return     # a non-idempotent pusher is re-applied to the stored best by design; clause (a) still applies
+        be = s['bestEnergy']
+        if isinstance(be, float) and finite(be) and not in_box(s['bestSolution'], box):
+            h.violate(self.P, 'best_outside_box', detail='%s: bestSolution %r (energy %r) lies outside %r'
+                      % (when, s['bestSolution'], be, box), **self.tags(h))
+    def after_op(self, h, op, res):
+        self.scan(h)                      # evaluations made under the box in force before this op
+        if op['op'] == 'set' and op['what'] == 'constraint' and (op.get('arg') or {}).get('family') == 'push_out':
+            self.nonidem_seen = True
+        if op['op'] == 'set' and op['what'] == 'bounds':
+            a = op.get('arg')
+            if a and a.get('tight') is False and a.get('clip') is not None:
+                if res.get('exc') != 'ValueError':
+                    h.violate(self.P, 'illegal_mode_accepted', detail='SetStrictRanges(tight=False, clip=%r) did not '
+                              'raise ValueError (%r)' % (a.get('clip'), res), **self.tags(h))
+            if h.started: self.box_changed = True
+            elif 'exc' not in res: self.box_from_start = bool(a)
+        self.ep.note(h, op, res)
+        if op['op'] == 'set' and op['what'] == 'init' and 'lo' in (op.get('arg') or {}) and 'exc' not in res:
+            a = op['arg']
+            for i, m in enumerate(h.snap()['population']):
+                if not in_box(m, (a['lo'], a['hi'])):
+                    h.violate(self.P, 'initial_points_outside_limits', detail='member %d %r outside requested limits '
+                              '%r..%r' % (i, m, a['lo'], a['hi']), **self.tags(h))
+                    break
+        if op['op'] in ('step', 'solve') and h.started:
+            self.check_best(h, h.snap(), 'after_' + op['op'])
+
+
+# =========================================================================== C03
+
+class ConstraintOracle(object):
+    """C03: hard constraints hold at every evaluation and for the reported result"""
+    P = 'C03'
+    def __init__(self):
+        self.ep = Epochs()
+        self.checked = 0
+        self.best = EvaluatedOptimum()
+        self.best.P = 'C03'
+    def tags(self, h):
+        e = self.ep.cur
+        return {'constraint': (e['con'] or {}).get('family'), 'form': (e['con'] or {}).get('form'),
+                'bounds': e['box'] is not None, 'tight': e['tight'], 'clip': e['clip'],
+                'installed_midrun': self.ep.changed_after_start['con']}
+    def scan(self, h):
+        from . import env
+        ev = h.run.evals
+        con = self.ep.cur['con']
+        if con is not None:
+            for i in range(self.checked, len(ev)):
+                x = ev[i].x
+                if tuple(env.con_apply(con, list(x))) != x and not any(v != v for v in x):
+                    h.violate(self.P, 'cost_called_at_unconstrained_point', detail='cost call #%d at %r does not satisfy '
+                              'the installed constraint %s (constraint maps it to %r)'
+                              % (ev[i].n, x, con['family'], tuple(env.con_apply(con, list(x)))), **self.tags(h))
+                    break
+        self.checked = len(ev)
+    def check_best(self, h, s, when):
+        from . import env
+        con = self.ep.cur['con']
+        if con is None or self.ep.changed_after_start['con']: return
+        be = s['bestEnergy']
+        if not (isinstance(be, float) and finite(be)): return
+        bs = tuple(s['bestSolution'])
+        if tuple(env.con_apply(con, list(bs))) != bs:
+            h.violate(self.P, 'best_not_fixed_point', detail='%s: reported solution %r (energy %r) does not satisfy the '
+                      'constraint %s (maps to %r)' % (when, bs, be, con['family'],
+                      tuple(env.con_apply(con, list(bs)))), **self.tags(h))
+            return
+        # energy of the constrained point: an evaluation at exactly that point with that energy
+        ks = [i for i, e in enumerate(h.run.evals) if e.x == bs]
+        ok = False
+        for k_ in ks:
+            e = h.run.evals[k_]; ep = self.ep.at(k_)
+            p = env.pen_apply(ep['pen'], e.x) if ep['pen'] else 0.0
+            if feq(canon(reduce_energy(e.y, p, ep['red'])), be): ok = True; break
+        if not ok:
+            h.violate(self.P, 'best_energy_not_of_constrained_point', detail='%s: reported energy %r is not the energy of the '
+                      'reported constrained point %r (%d evaluations there)' % (when, be, bs, len(ks)), **self.tags(h))
+    def on_step(self, h, s):
+        self.scan(h)
+        self.check_best(h, s, 'iteration_%d' % s['_step_no'])
+    def after_op(self, h, op, res):
+        self.scan(h)
+        self.ep.note(h, op, res)
+        if op['op'] in ('step', 'solve') and h.started:
+            self.check_best(h, h.snap(), 'after_' + op['op'])
+
+
+# =========================================================================== C10
+
+class TermOracle(object):
+    """C10: termination conditions mean what they say, alone and in combination"""
+    P = 'C10'
+    def __init__(self):
+        self.seen = set()
+    def on_step(self, h, s):
+        self.check(h, s, 'iteration_%d' % s['_step_no'])
+    def after_op(self, h, op, res):
+        if h.started and op['op'] in ('step', 'solve', 'set', 'finalize'):
+            self.check(h, h.snap(), 'after_' + op['op'])
+    def conds(self, h):
+        out = []
+        if h.term_node is not None: out.append(('installed', h.term_node, h.term_twin))
+        for i, (n, tw) in enumerate(h.forest): out.append(('forest%d' % i, n, tw))
+        return out
+    def check(self, h, s, when):
+        from . import termref
+        solver = h.solver
+        for name, node, twin in self.conds(h):
+            self.check_node(h, s, when, name, node, solver, top=True, twin=twin)
+        self.boundary_probes(h, s, when, solver)
+    def _call(self, obj, solver, *a):
+        try:
+            return obj(solver, *a)
+        except Exception as e:
+            return e
+    def check_node(self, h, s, when, name, node, solver, top=False, twin=None):
+        from . import termref
+        obj = node.obj
+        m_bool = self._call(obj, solver)
+        m_info = self._call(obj, solver, True)
+        if isinstance(m_bool, Exception) or isinstance(m_info, Exception):
+            # a condition that raises on a reachable state is reported once per kind
+            h.violate(self.P, 'condition_raised@%s' % node.t, detail='%s: %s raised %r' % (when, node.spec, m_bool if isinstance(m_bool, Exception) else m_info), cond=node.t)
+            return None
+        ref_sat, ref_docs = termref.evaluate(node, s)
+        h.run.probe('c10.%s.%s' % (node.t, {True: 'T', False: 'F', None: 'U'}[ref_sat]))
+        tags = {'cond': node.t, 'which': name.rstrip('0123456789')}
+        if node.kids:
+            kids = [self.check_node(h, s, when, name, k, solver) for k in node.kids]
+            if all(k is not None for k in kids):
+                want = all(kids) if node.t in ('And', 'When') else any(kids)
+                if bool(m_bool) != want:
+                    h.violate(self.P, 'and_or_when_algebra', detail='%s: %s(%s) returned %r with member results %r'
+                              % (when, node.t, node.spec, m_bool, kids), **tags)
+                # 'self' form: only satisfied members
+                m_self = self._call(obj, solver, 'self')
+                if not isinstance(m_self, Exception):
+                    sat_members = [k.obj for k, r in zip(node.kids, kids) if r]
+                    for mem in m_self:
+                        if not any(mem is x or mem == x for x in sat_members):
+                            h.violate(self.P, 'info_names_unsatisfied', detail="%s: %s 'self' form returned the unsatisfied "
+                                      "member %r" % (when, node.t, getattr(mem, '__doc__', mem)), **tags)
+                            break
+                    if node.t == 'Or' and len(set(map(id, m_self))) < len(set(map(id, sat_members))) and \
+                       len(set(sat_members)) == len(sat_members):
+                        h.violate(self.P, 'info_names_unsatisfied', detail="%s: Or 'self' form dropped a satisfied member"
+                                  % when, **tags)
+        else:
+            if ref_sat is not None and bool(m_bool) != ref_sat:
+                h.violate(self.P, 'primitive_ne_definition@%s' % node.t, detail='%s: %s returned %r but its documented '
+                          'inequality is %r on history tail %r' % (when, node.doc, bool(m_bool), ref_sat,
+                          s['energy_history'][-4:]), **tags)
+        # info=True: names only satisfied primitives, empty iff unsatisfied
+        if isinstance(m_info, str):
+            named = set(m_info.split('; ')) if m_info else set()
+            if bool(m_info) != bool(m_bool):
+                h.violate(self.P, 'info_names_unsatisfied', detail='%s: %s: bool form %r but info form %r'
+                          % (when, node.spec, m_bool, m_info), **tags)
+            elif ref_docs is not None and named != ref_docs and ref_sat is not None:
+                h.violate(self.P, 'info_names_unsatisfied', detail='%s: %s: info names %r, satisfied primitives are %r'
+                          % (when, node.spec, sorted(named), sorted(ref_docs)), **tags)
+        # rebuilt twin behaves identically
+        if top and twin is not None:
+            if isinstance(twin, Exception):
+                h.violate(self.P, 'rebuilt_condition_differs', detail='%s: rebuilding %s from type/state raised %r'
+                          % (when, node.spec, twin), **tags)
+            else:
+                t_bool = self._call(twin, solver); t_info = self._call(twin, solver, True)
+                a = set(m_info.split('; ')) if isinstance(m_info, str) else m_info
+                b = set(t_info.split('; ')) if isinstance(t_info, str) else t_info
+                if bool(t_bool) != bool(m_bool) or a != b:
+                    h.violate(self.P, 'rebuilt_condition_differs', detail='%s: %s -> %r/%r, rebuilt twin -> %r/%r'
+                              % (when, node.spec, m_bool, m_info, t_bool, t_info), **tags)
+        return bool(m_bool)
+    def boundary_probes(self, h, s, when, solver):
+        """conditions whose tolerance is exactly the difference the run produced (and one ulp less)"""
+        import mystic.termination as mt
+        hist = s['energy_history']
+        if len(hist) < 2: return
+        for g in (1, 2, 3):
+            if len(hist) <= g: continue
+            a, b = hist[-g], hist[-1]
+            if not (finite(a) and finite(b)) or a == b: continue
+            d = a - b
+            if d <= 0: continue
+            h.run.probe('c10.boundary')
+            for cls, nm in ((mt.ChangeOverGeneration, 'COG'),):
+                on = cls(tolerance=d, generations=g)(solver)
+                off = cls(tolerance=math.nextafter(d, -inf), generations=g)(solver)
+                if not on or off:
+                    h.violate(self.P, 'primitive_ne_definition@%s' % nm, detail='%s: boundary: cost[-%d]-cost[-1]=%r; '
+                              'tolerance=that -> %r (want True); one ulp less -> %r (want False)' % (when, g, d, on, off),
+                              cond=nm, which='boundary')
+            # normalized form: 2(a-b) <= tol(|a|+|b|)  <=>  tol >= 2(a-b)/(|a|+|b|)
+        v = hist[-1]
+        if finite(v) and v != 0:
+            tgt = 0.0
+            on = mt.VTR(tolerance=abs(v - tgt), target=tgt)(solver)
+            off = mt.VTR(tolerance=math.nextafter(abs(v - tgt), -inf), target=tgt)(solver)
+            if not on or off:
+                h.violate(self.P, 'primitive_ne_definition@VTR', detail='%s: boundary: |cost[-1]-target|=%r: tolerance=that -> %r, '
+                          'one ulp less -> %r' % (when, abs(v), on, off), cond='VTR', which='boundary')
+            ev = s['evaluations']; gn = s['generations']
+            for (kw, want) in (({'generations': gn}, True), ({'generations': gn + 1}, False),
+                               ({'evaluations': ev}, True), ({'evaluations': ev + 1}, False)):
+                got = bool(mt.EvaluationLimits(**kw)(solver))
+                if got != want:
+                    h.violate(self.P, 'primitive_ne_definition@EvaluationLimits', detail='%s: boundary: EvaluationLimits(%r) with '
+                              'generations=%d evaluations=%d -> %r' % (when, kw, gn, ev, got), cond='EvaluationLimits', which='boundary')
+
+
+# =========================================================================== C05
+
+DEFAULT_SCALE = {'NM': (200, 200), 'Powell': (1000, 1000), 'DE': (10, 1000), 'DE2': (10, 1000)}
+
+class LimitModel(object):
+    """C05: stopping discipline -- limits, termination and exit requests are honoured"""
+    P = 'C05'
+    def __init__(self):
+        self.maxiter = None      # explicit absolute limits as the model understands them (None = default)
+        self.maxfun = None
+        self.exit_answered = False
+        self.answers_seen = 0
+        self.set_midrun = False
+        self.last_limits_op = None
+        self.steps_begun = 0
+    def tags(self, h):
+        return {'exit': self.exit_answered, 'limits': self.last_limits_op is not None, 'midrun_limits': self.set_midrun,
+                'term': (h.term_spec or {}).get('t'), 'in_solve': h.in_solve}
+    def _iters(self, h):
+        return max(0, h.run.counts['_Step.done'] - 1)
+    def _calls(self, h):
+        return len([1 for e in h.run.evals if e.owner == h.cur])
+    def after_op(self, h, op, res):
+        if op['op'] == 'set' and op['what'] == 'limits' and 'exc' not in res:
+            g, e = op['arg'][0], op['arg'][1]
+            new = bool(op['arg'][2]) if len(op['arg']) > 2 else False
+            it, ca = self._iters(h), self._calls(h)
+            self.maxiter = None if g is None else (g + it if new else g)
+            self.maxfun = None if e is None else (e + ca if new else e)
+            self.last_limits_op = (g, e, new, it, ca)
+            if h.started: self.set_midrun = True
+            # bookkeeping visible to the user: explicit limits land in the solver as given / offset
+            s = h.solver
+            if g is not None and s._maxiter != (g + s.generations if new else g) and not (new and s._maxiter == g + it):
+                h.violate(self.P, 'new_limit_miscounted', detail='SetEvaluationLimits(generations=%r,new=%r) at %d iterations '
+                          'stored maxiter=%r' % (g, new, it, s._maxiter), **self.tags(h))
+            if e is not None and s._maxfun != (e + ca if new else e):
+                h.violate(self.P, 'new_limit_miscounted', detail='SetEvaluationLimits(evaluations=%r,new=%r) after %d real cost '
+                          'calls stored maxfun=%r' % (e, new, ca, s._maxfun), **self.tags(h))
+        if op['op'] == 'solve':
+            pass
+        if op['op'] in ('step', 'solve') and h.started and 'exc' not in res:
+            self.check_final(h, op, res)
+    def note_exit(self, h):
+        a = h.run.signal.answers
+        for x in a[self.answers_seen:]:
+            if x.lower() == 'exit': self.exit_answered = True
+        self.answers_seen = len(a)
+    def before_step(self, h, s, solver):
+        """called as each _Step begins"""
+        self.note_exit(h)
+        n_done = h.run.counts['_Step.done']
+        if n_done == 0 or not h.started and n_done == 0: return
+        if h.run.counts['_Step.begin'] - 1 != n_done: return     # nested/odd: not a clean boundary
+        from . import termref
+        T = self.tags(h)
+        it = max(0, n_done - 1); ca = self._calls(h)
+        mi = self.maxiter if self.maxiter is not None else s['maxiter']
+        mf = self.maxfun if self.maxfun is not None else s['maxfun']
+        why = None
+        if isinstance(mi, (int, float)) and it >= mi: why = 'iterations %d >= generation limit %r' % (it, mi)
+        elif isinstance(mf, (int, float)) and ca >= mf: why = 'real cost calls %d >= evaluation limit %r' % (ca, mf)
+        elif self.exit_answered and s['earlyexit']: why = 'an exit request was answered'
+        elif h.term_node is not None:
+            sat, docs = termref.evaluate(h.term_node, s)
+            if sat is True: why = 'termination %s holds (%s)' % (h.term_spec, sorted(docs or []))
+        if why:
+            h.violate(self.P, 'step_begun_after_stop_condition', detail='_Step #%d begun although %s'
+                      % (n_done + 1, why), **T)
+    def on_step(self, h, s):
+        self.note_exit(h)
+        T = self.tags(h)
+        mi = self.maxiter
+        if mi is not None and h.plan['solver'] != 'Powell' and s['generations'] > max(mi, 0):
+            h.violate(self.P, 'generations_exceed_limit', detail='generations=%d > generation limit %r'
+                      % (s['generations'], mi), **T)
+    def check_final(self, h, op, res):
+        """the stop message names a condition that is actually true of the final state"""
+        from . import termref
+        self.note_exit(h)
+        msg = res.get('ret')
+        if op['op'] == 'step': msg = msg[-1] if msg else None
+        if not msg: return
+        s = h.snap()
+        T = self.tags(h)
+        mi, mf = s['maxiter'], s['maxfun']
+        if msg == "EvaluationLimits with %s" % {'evaluations': h.solver._maxfun, 'generations': h.solver._maxiter}:
+            ok = (isinstance(mf, (int, float)) and s['evaluations'] >= mf) or \
+                 (isinstance(mi, (int, float)) and s['generations'] >= mi)
+            if not ok:
+                h.violate(self.P, 'stop_message_untrue', detail='%r but evaluations=%d generations=%d limits=%r/%r'
+                          % (msg, s['evaluations'], s['generations'], mi, mf), **T)
+        elif msg.startswith('SolverInterrupt'):
+            if not (s['earlyexit'] and self.exit_answered):
+                h.violate(self.P, 'stop_message_untrue', detail='%r but no exit was requested (tty answers %r)'
+                          % (msg, h.run.signal.answers), **T)
+        elif h.term_node is not None:
+            named = set(msg.split('; '))
+            # every named primitive must hold on the final state
+            def leaves(n):
+                if n.kids:
+                    for k in n.kids:
+                        for l in leaves(k): yield l
+                else: yield n
+            by_doc = {}
+            for l in leaves(h.term_node): by_doc.setdefault(l.doc, []).append(l)
+            for d in named:
+                ls = by_doc.get(d)
+                if not ls:
+                    h.violate(self.P, 'stop_message_untrue', detail='stop message names %r which is not part of the '
+                              'installed termination %s' % (d, h.term_spec), **T)
+                    break
+                vals = [termref.prim(l, s) for l in ls]
+                if all(v is False for v in vals):
+                    h.violate(self.P, 'stop_message_untrue', detail='stop message names %r but that condition does not '
+                              'hold on the final state (history tail %r)' % (d, s['energy_history'][-3:]), **T)
+                    break
